@@ -346,6 +346,28 @@ func PropC04(c *vs.Case, f Factory) error {
 		if err := judgeRefRules(c, env, t, cachedParent, t.N); err != nil {
 			return withTrace(err, t)
 		}
+		// the obligation side of "an owned child that stops matching is released": a sync that succeeded, of a live
+		// parent whose cache was current, leaves no child that it observed as owned-but-not-matching under its control
+		if scn.Cfg.Kind == "composite" && t.Err == nil && !staleParent && cachedParent != nil && !IsDeleting(cachedParent) && len(nestedTraces) == 0 {
+			puid := metaStr(cachedParent, "uid")
+			if lp := env.W.Sim.Get(scn.Cfg.ParentResource, metaStr(cachedParent, "namespace"), metaStr(cachedParent, "name")); lp != nil && metaStr(lp, "uid") == puid && !IsDeleting(lp) {
+				for _, res := range env.ChildResources() {
+					for _, o := range t.PreCache[res] {
+						if ControllerOf(o) != puid || env.selectorMatches(cachedParent, LabelsOf(o)) {
+							continue
+						}
+						live := env.W.Sim.Get(res, metaStr(o, "namespace"), metaStr(o, "name"))
+						if live == nil || metaStr(live, "uid") != metaStr(o, "uid") || env.selectorMatches(cachedParent, LabelsOf(live)) {
+							continue
+						}
+						c.Class("owned-child-stopped-matching")
+						if ControllerOf(live) == puid {
+							return withTrace(vs.Violf("C04/nonmatching-child-not-released", "%s is controlled by the parent (uid %s) but its labels %v do not match the parent's selector, in the cache and on the server alike; the sync succeeded and the parent still controls it", ObjID(o), puid, LabelsOf(live)), t)
+						}
+					}
+				}
+			}
+		}
 		for i, nt := range nestedTraces {
 			if nt.Panic != "" {
 				return vs.Violf("C04/panic", "panic: %s", nt.Panic)
